@@ -274,7 +274,7 @@ type c07Spec struct {
 	budget    int
 	prefix    bool
 	metrics   bool
-	multi     int // 0 none, 1 multi without mirroring, 2 multi with mirroring
+	multi     int // 0 none, 1 multi without mirroring, 2 multi with mirroring, 3 mirroring + primary switched at runtime to the second store
 	secondary string
 	keyBase   string
 	nKeys     int
@@ -342,6 +342,7 @@ func (o c07Op) apply(in interface{}, a int, id int) (out interface{}, retry bool
 }
 
 type c07World struct {
+	cfgCh   chan kv.MultiRuntimeConfig
 	spec    *c07Spec
 	pri     c07Backend
 	sec     *c07Backend
@@ -356,36 +357,61 @@ func (s *c07Spec) mapped(k int) string {
 	return s.key(k)
 }
 
-// c07GateClient wraps the secondary store of a MultiClient so that the mirror write
-// (writeToSecondary: a one-shot CAS with MultiClient's own function) can be scheduled like the
-// primary loop: the hook runs between the secondary's Get and its conditional write.
+// c07GateClient wraps EVERY store of a MultiClient. A store-level CAS attempt during which the
+// caller-supplied function is not invoked is a mirror write (writeToSecondary: a one-shot CAS with
+// MultiClient's own function); it is reported to the scheduler together with the role of the store
+// it was sent to, and blocks on the caller's gate between the store's Get and its conditional
+// write - so the mirror write is scheduled like an attempt of the primary loop, whichever store
+// the MultiClient sends it to.
 type c07GateClient struct {
 	kv.Client
-	hook func(ctx context.Context, in interface{})
+	primary bool // this store is the one the MultiClient uses as primary during the run
+	hook    func(st *c07CallerSt, toPrimary bool, in interface{})
 }
 
-func (g c07GateClient) CAS(ctx context.Context, key string, f func(in interface{}) (out interface{}, retry bool, err error)) error {
+func (g *c07GateClient) CAS(ctx context.Context, key string, f func(in interface{}) (out interface{}, retry bool, err error)) error {
+	st, ok := ctx.Value(c07CtxKey{}).(*c07CallerSt)
+	if !ok || g.hook == nil {
+		return g.Client.CAS(ctx, key, f)
+	}
 	return g.Client.CAS(ctx, key, func(in interface{}) (interface{}, bool, error) {
-		g.hook(ctx, in)
-		return f(in)
+		before := st.userCalls
+		out, retry, err := f(in)
+		if st.userCalls == before {
+			g.hook(st, g.primary, in)
+		}
+		return out, retry, err
 	})
 }
 
 type c07CtxKey struct{}
 
-func c07Build(s *c07Spec, gate func(ctx context.Context, in interface{})) *c07World {
+func c07Build(s *c07Spec, gate func(st *c07CallerSt, toPrimary bool, in interface{})) *c07World {
 	w := &c07World{spec: s}
 	w.pri = c07NewBackend(s.backend, s.budget)
 	var c kv.Client = w.pri.cli
 	if s.multi > 0 {
 		sb := c07NewBackend(s.secondary, 10)
 		w.sec = &sb
-		var secCli kv.Client = sb.cli
-		if gate != nil {
-			secCli = c07GateClient{sb.cli, gate}
+		priCli := &c07GateClient{w.pri.cli, true, gate}
+		secCli := &c07GateClient{sb.cli, false, gate}
+		if s.multi < 3 {
+			c = kv.VerifNewMultiClient(kv.MultiConfig{MirrorEnabled: s.multi == 2, MirrorTimeout: 0},
+				[]string{"primary", "secondary"}, []kv.Client{priCli, secCli}, log.NewNopLogger(), nil)
+		} else {
+			// Migration in progress: the store under test is SECOND in the client list and is made the
+			// primary through the runtime configuration (MultiRuntimeConfig.PrimaryStore), as an operator
+			// does when moving from one store to another; mirroring stays on. The channel is unbuffered
+			// and watchConfigChannel handles one message at a time, so once the second (empty) message
+			// has been taken the switch has been carried out.
+			ch := make(chan kv.MultiRuntimeConfig)
+			w.cfgCh = ch
+			c = kv.VerifNewMultiClient(kv.MultiConfig{MirrorEnabled: true, MirrorTimeout: 0,
+				ConfigProvider: func() <-chan kv.MultiRuntimeConfig { return ch }},
+				[]string{"old", "new"}, []kv.Client{secCli, priCli}, log.NewNopLogger(), nil)
+			ch <- kv.MultiRuntimeConfig{PrimaryStore: "new"}
+			ch <- kv.MultiRuntimeConfig{}
 		}
-		c = kv.VerifNewMultiClient(kv.MultiConfig{MirrorEnabled: s.multi == 2, MirrorTimeout: 0},
-			[]string{"primary", "secondary"}, []kv.Client{w.pri.cli, secCli}, log.NewNopLogger(), nil)
 	}
 	if s.prefix {
 		c = kv.PrefixClient(c, c07Prefix)
@@ -409,6 +435,9 @@ func c07Build(s *c07Spec, gate func(ctx context.Context, in interface{})) *c07Wo
 }
 
 func (w *c07World) closeAll() {
+	if w.cfgCh != nil {
+		close(w.cfgCh) // ends watchConfigChannel
+	}
 	w.pri.close()
 	if w.sec != nil {
 		w.sec.close()
@@ -455,6 +484,7 @@ func (w *c07World) finals() (fin, raw, sec string) {
 type c07Msg struct {
 	entered bool
 	mirror  bool
+	toPrim  bool // the mirror write was sent to the store that is the primary
 	in      string
 	err     error
 }
@@ -503,8 +533,9 @@ type c07CallerSt struct {
 	msgs     chan c07Msg
 	gate     chan struct{}
 	start    chan struct{}
-	primFret string
-	inMirror bool
+	primFret  string
+	inMirror  bool
+	userCalls int // invocations of the caller-supplied function (caller goroutine only)
 	next     int
 	blocked  bool
 }
@@ -513,12 +544,8 @@ func c07RunSched(s *c07Spec, ch c07Chooser) (trace, fin, raw, sec string) {
 	type callerSt = c07CallerSt
 	ctx, cancel := context.WithCancel(context.Background())
 	defer cancel()
-	w := c07Build(s, func(cctx context.Context, in interface{}) {
-		st, ok := cctx.Value(c07CtxKey{}).(*c07CallerSt)
-		if !ok {
-			return
-		}
-		st.msgs <- c07Msg{entered: true, mirror: true, in: c07Digest(in)}
+	w := c07Build(s, func(st *c07CallerSt, toPrimary bool, in interface{}) {
+		st.msgs <- c07Msg{entered: true, mirror: true, toPrim: toPrimary, in: c07Digest(in)}
 		select {
 		case <-st.gate:
 		case <-ctx.Done():
@@ -541,6 +568,7 @@ func c07RunSched(s *c07Spec, ch c07Chooser) (trace, fin, raw, sec string) {
 				id := (c+1)*100 + j
 				op := op
 				err := w.wrapped.CAS(context.WithValue(context.Background(), c07CtxKey{}, st), s.key(op.key), func(in interface{}) (interface{}, bool, error) {
+					st.userCalls++
 					st.msgs <- c07Msg{entered: true, in: c07Digest(in)}
 					select {
 					case <-st.gate:
@@ -599,7 +627,9 @@ func c07RunSched(s *c07Spec, ch c07Chooser) (trace, fin, raw, sec string) {
 		}
 		st.inMirror = m.entered && m.mirror
 		res := "ok"
-		if m.entered && m.mirror {
+		if m.entered && m.mirror && m.toPrim {
+			res = "minP=" + m.in
+		} else if m.entered && m.mirror {
 			res = "min=" + m.in
 		} else if m.entered {
 			res = "in=" + m.in
@@ -772,10 +802,7 @@ func c07RandWrap(r *rng, s *c07Spec) {
 	s.prefix = r.chance(1, 2)
 	s.metrics = r.chance(1, 2)
 	if r.chance(2, 5) {
-		s.multi = 1 + r.intn(2)
-		if r.chance(3, 4) {
-			s.multi = 2
-		}
+		s.multi = pick(r, []int{1, 2, 2, 2, 2, 3, 3, 3})
 		var others []string
 		for _, b := range c07Backends {
 			if b != s.backend {
@@ -820,11 +847,11 @@ func runC07(e *env) {
 	}
 	var ex []exJob
 	shapes := [][2]int{{2, 1}, {2, 2}, {3, 1}}
-	variants := 3
-	cap := 120
+	variants := 4
+	cap := 100
 	if !e.quick {
 		shapes = append(shapes, [2]int{3, 2})
-		variants = 6
+		variants = 7
 		cap = 1500
 	}
 	rx := newRng(e.seed, 700)
@@ -836,11 +863,21 @@ func runC07(e *env) {
 					if v == 0 { // the plain textbook case: everybody increments or appends, no wrappers
 						s.prefix, s.metrics, s.multi, s.secondary, s.budget = false, false, 0, "", 10
 					}
+					if v == 1 { // the migration case: mirroring MultiClient whose primary was switched at runtime
+						s.multi, s.budget = 3, 10
+						var others []string
+						for _, o := range c07Backends {
+							if o != b {
+								others = append(others, o)
+							}
+						}
+						s.secondary = pick(rx, others)
+					}
 					for c := 0; c < sh[0]; c++ {
 						var ops []c07Op
 						for j := 0; j < sh[1]; j++ {
 							o := c07RandOp(rx, 1, false)
-							if v == 0 {
+							if v <= 1 {
 								o = c07Op{kind: pick(rx, []byte{'i', 'a'}), retry: true}
 							}
 							ops = append(ops, o)
@@ -855,7 +892,7 @@ func runC07(e *env) {
 
 	// (B) seeded random schedules
 	rb := newRng(e.seed, 701)
-	nRand := 2500
+	nRand := 2000
 	if !e.quick {
 		nRand = 20000
 	}
